@@ -12,8 +12,10 @@ pub fn keyhash_b(b: &[u8]) -> csl::Ed25519KeyHash { csl::Ed25519KeyHash::from_by
 pub fn scripthash_b(b: &[u8]) -> csl::ScriptHash { csl::ScriptHash::from_bytes(b.to_vec()).unwrap() }
 
 fn hash_bytes(v: &J) -> Vec<u8> {
-    // "h": small id k, or "hb": explicit 28 bytes
-    if let Some(hb) = v.get("hb") { get_bytes(hb) } else { h28(v["h"].as_u64().unwrap() as u8) }
+    // "h": small id k -> synthetic k,k,..; "k": key id -> genuine hash of the k-th signing key; "hb": explicit 28 bytes
+    if let Some(hb) = v.get("hb") { get_bytes(hb) }
+    else if let Some(k) = v.get("k").and_then(|x| x.as_u64()) { gkeyhash(k as u8).to_bytes() }
+    else { h28(v["h"].as_u64().unwrap() as u8) }
 }
 /// {"t":0|1,"h":k}
 pub fn cred(v: &J) -> csl::Credential {
@@ -33,11 +35,11 @@ pub fn reward_addr(net: u8, c: &csl::Credential) -> csl::RewardAddress { csl::Re
 pub fn anchor() -> csl::Anchor {
     csl::Anchor::new(&csl::URL::new("https://a.b".to_string()).unwrap(), &csl::AnchorDataHash::from_bytes(h32(9)).unwrap())
 }
-pub fn pool_params(op: u8, owner_cred: &csl::Credential) -> csl::PoolParams {
+pub fn pool_params(op: u8, ophash: &csl::Ed25519KeyHash, owner_cred: &csl::Credential) -> csl::PoolParams {
     let mut owners = csl::Ed25519KeyHashes::new();
-    owners.add(&keyhash(op));
+    owners.add(ophash);
     csl::PoolParams::new(
-        &keyhash(op), &csl::VRFKeyHash::from_bytes(h32(op)).unwrap(), &csl::BigNum::from(1000u64), &csl::BigNum::from(340u64),
+        ophash, &csl::VRFKeyHash::from_bytes(h32(op)).unwrap(), &csl::BigNum::from(1000u64), &csl::BigNum::from(340u64),
         &csl::UnitInterval::new(&csl::BigNum::from(1u64), &csl::BigNum::from(10u64)), &reward_addr(0, owner_cred), &owners, &csl::Relays::new(), None)
 }
 /// certificate by wire kind 0..18: {"k":n,"cred":{..},"coin_n":[..],"pool":k,"drep":{..},"cred2":{..}}
@@ -46,7 +48,9 @@ pub fn cert(v: &J) -> csl::Certificate {
     let dflt = serde_json::json!({"t":0,"h":1});
     let c = cred(v.get("cred").unwrap_or(&dflt));
     let coin = v.get("coin_n").map(bn_of).unwrap_or(csl::BigNum::from(2_000_000u64));
-    let pool = keyhash(v.get("pool").and_then(|x| x.as_u64()).unwrap_or(7) as u8);
+    let pool_id = v.get("pool").and_then(|x| x.as_u64()).unwrap_or(7) as u8;
+    // "g": true -> pool / operator hashes are genuine key hashes (signing scenarios)
+    let pool = if v.get("g").and_then(|x| x.as_bool()).unwrap_or(false) { gkeyhash(pool_id) } else { keyhash(pool_id) };
     let dr = v.get("drep").map(drep).unwrap_or(csl::DRep::new_always_abstain());
     let c2 = v.get("cred2").map(cred).unwrap_or(csl::Credential::from_keyhash(&keyhash(8)));
     use csl::Certificate as C;
@@ -54,7 +58,7 @@ pub fn cert(v: &J) -> csl::Certificate {
         0 => C::new_stake_registration(&csl::StakeRegistration::new(&c)),
         1 => C::new_stake_deregistration(&csl::StakeDeregistration::new(&c)),
         2 => C::new_stake_delegation(&csl::StakeDelegation::new(&c, &pool)),
-        3 => C::new_pool_registration(&csl::PoolRegistration::new(&pool_params(v.get("pool").and_then(|x| x.as_u64()).unwrap_or(7) as u8, &c))),
+        3 => C::new_pool_registration(&csl::PoolRegistration::new(&pool_params(pool_id, &pool, &c))),
         4 => C::new_pool_retirement(&csl::PoolRetirement::new(&pool, 100)),
         5 => C::new_genesis_key_delegation(&csl::GenesisKeyDelegation::new(&csl::GenesisHash::from_bytes(h28(3)).unwrap(),
                 &csl::GenesisDelegateHash::from_bytes(h28(4)).unwrap(), &csl::VRFKeyHash::from_bytes(h32(5)).unwrap())),
@@ -87,3 +91,49 @@ pub fn txin(u: u8, ix: u32) -> csl::TransactionInput {
 }
 pub fn enterprise_addr(net: u8, c: &csl::Credential) -> csl::Address { csl::EnterpriseAddress::new(net, c).to_address() }
 pub fn base_addr(net: u8, p: &csl::Credential, s: &csl::Credential) -> csl::Address { csl::BaseAddress::new(net, p, s).to_address() }
+
+// ---- genuine keys (signing scenarios): key id k -> Ed25519 private key with seed bytes k,k,..; Byron id k -> Icarus key
+use std::cell::RefCell;
+use std::collections::HashMap;
+thread_local! {
+    static KH: RefCell<HashMap<u8, Vec<u8>>> = RefCell::new(HashMap::new());
+}
+pub fn sk(k: u8) -> csl::PrivateKey { csl::PrivateKey::from_normal_bytes(&[k; 32]).unwrap() }
+/// genuine key hash of key id k (cached)
+pub fn gkeyhash(k: u8) -> csl::Ed25519KeyHash {
+    let b = pubinfo(k).1;
+    csl::Ed25519KeyHash::from_bytes(b).unwrap()
+}
+pub fn gcred(k: u8) -> csl::Credential { csl::Credential::from_keyhash(&gkeyhash(k)) }
+thread_local! {
+    static B32: RefCell<HashMap<u8, Vec<u8>>> = RefCell::new(HashMap::new());
+    static PUB: RefCell<HashMap<u8, (Vec<u8>, Vec<u8>)>> = RefCell::new(HashMap::new());
+}
+/// Icarus root key of id k (PBKDF2 inside: cached)
+pub fn bip32(k: u8) -> csl::Bip32PrivateKey {
+    let b = B32.with(|m| m.borrow_mut().entry(k).or_insert_with(|| csl::Bip32PrivateKey::from_bip39_entropy(&[k; 16], &[]).as_bytes()).clone());
+    csl::Bip32PrivateKey::from_bytes(&b).unwrap()
+}
+/// (vkey bytes, key hash bytes) of signing key k (cached)
+pub fn pubinfo(k: u8) -> (Vec<u8>, Vec<u8>) {
+    PUB.with(|m| m.borrow_mut().entry(k).or_insert_with(|| { let pk = sk(k).to_public(); (pk.as_bytes(), pk.hash().to_bytes()) }).clone())
+}
+pub fn byron_addr(k: u8, magic: u32) -> csl::ByronAddress { csl::ByronAddress::icarus_from_key(&bip32(k).to_public(), magic) }
+/// native script "signature of key k"
+pub fn pubkey_script(k: u8) -> csl::NativeScript { csl::NativeScript::new_script_pubkey(&csl::ScriptPubkey::new(&gkeyhash(k))) }
+
+/// address spec: {"kind":"ent"|"base"|"byron"|"reward"|"ptr"|"script_ent"|"script_base", "k":id, "s":id, "net":0|1, "magic":n}
+pub fn addr(v: &J) -> csl::Address {
+    let k = v["k"].as_u64().unwrap_or(1) as u8;
+    let s = v["s"].as_u64().unwrap_or(k as u64 + 100) as u8;
+    let net = v["net"].as_u64().unwrap_or(0) as u8;
+    match v["kind"].as_str().unwrap_or("ent") {
+        "base" => csl::BaseAddress::new(net, &gcred(k), &gcred(s)).to_address(),
+        "byron" => byron_addr(k, v["magic"].as_u64().unwrap_or(764824073) as u32).to_address(),
+        "reward" => csl::RewardAddress::new(net, &gcred(k)).to_address(),
+        "ptr" => csl::PointerAddress::new(net, &gcred(k), &csl::Pointer::new(2498243, 27, 3)).to_address(),
+        "script_ent" => csl::EnterpriseAddress::new(net, &csl::Credential::from_scripthash(&pubkey_script(k).hash())).to_address(),
+        "script_base" => csl::BaseAddress::new(net, &csl::Credential::from_scripthash(&pubkey_script(k).hash()), &gcred(s)).to_address(),
+        _ => csl::EnterpriseAddress::new(net, &gcred(k)).to_address(),
+    }
+}
